@@ -63,12 +63,21 @@ fn install_hook() {
 /// Announces `site` through a fresh receiver on `host`, then uses it once so that the metadata
 /// object shows; returns (interning index, whether a registration reached the host).
 fn announce(host: &StrictHost, dispatch: &Dispatch, id: u64, site: &Site) -> (usize, bool) {
+    let mut recv = dispatcher::with_default(dispatch, TracingEventReceiver::default);
+    let r = announce_with(&mut recv, host, dispatch, id, 1, site);
+    dispatcher::with_default(dispatch, || drop(recv));
+    let _ = host.take_log();
+    r
+}
+
+/// The same through a receiver that the caller keeps (one per thread), so that call-site ids are
+/// re-announced with other descriptions within one receiver.
+fn announce_with(recv: &mut TracingEventReceiver, host: &StrictHost, dispatch: &Dispatch, id: u64, span_id: u64, site: &Site) -> (usize, bool) {
     dispatcher::with_default(dispatch, || {
-        let mut recv = TracingEventReceiver::default();
         recv.try_receive(TracingEvent::NewCallSite { id, data: site.to_real() }).expect("announcement accepted");
         let registered = host.take_log().iter().any(|l| l.starts_with("c reg "));
         let use_ev = if site.is_span {
-            Ev::NewSpan { id: 1, parent: None, mt: id, values: vec![] }
+            Ev::NewSpan { id: span_id, parent: None, mt: id, values: vec![] }
         } else {
             Ev::NewEvent { mt: id, parent: None, values: vec![] }
         };
@@ -85,7 +94,9 @@ fn announce(host: &StrictHost, dispatch: &Dispatch, id: u64, site: &Site) -> (us
                 }
             })
             .expect("metadata index observed");
-        drop(recv);
+        if site.is_span {
+            recv.try_receive(TracingEvent::SpanDropped { id: span_id }).expect("drop accepted");
+        }
         let _ = host.take_log();
         (idx, registered)
     })
@@ -125,11 +136,15 @@ fn run_schedule(work: &[(usize, Vec<Site>)], sched: &[usize]) -> Result<HashMap<
             TID.with(|t| t.set(Some(tid)));
             let host = StrictHost::new(None);
             let dispatch = Dispatch::new(host.clone());
+            // one receiver per thread; its call-site ids alternate between two values, so an id is
+            // announced again with another description
+            let mut recv = dispatcher::with_default(&dispatch, TracingEventReceiver::default);
             for (k, site) in sites.iter().enumerate() {
                 ctl.grants[tid].lock().unwrap().recv().unwrap(); // grant for step (A)
-                let (idx, is_new) = announce(&host, &dispatch, 500 + k as u64, site);
+                let (idx, is_new) = announce_with(&mut recv, &host, &dispatch, 500 + (k % 2) as u64, k as u64 + 1, site);
                 ctl.report.send(Report::Done(tid, idx, is_new)).unwrap();
             }
+            dispatcher::with_default(&dispatch, || drop(recv));
         }));
     }
     for &t in sched {
@@ -183,6 +198,8 @@ fn run_schedule(work: &[(usize, Vec<Site>)], sched: &[usize]) -> Result<HashMap<
 
 fn stress(n_threads: usize, per_thread: usize, pool: &[Site], out: &mut Outcome) {
     let seen: Arc<Mutex<HashMap<String, Vec<(usize, bool)>>>> = Arc::default();
+    let barrier = std::sync::Barrier::new(n_threads);
+    let barrier = &barrier;
     thread::scope(|scope| {
         for t in 0..n_threads {
             let seen = Arc::clone(&seen);
@@ -194,6 +211,17 @@ fn stress(n_threads: usize, per_thread: usize, pool: &[Site], out: &mut Outcome)
                     let r = announce(&host, &dispatch, 900 + k as u64, site);
                     seen.lock().unwrap().entry(site.tok()).or_default().push(r);
                 }
+                // rounds: all threads announce the same not yet interned description at the same
+                // moment (the window between a miss under the read lock and the insertion)
+                let mut recv = dispatcher::with_default(&dispatch, TracingEventReceiver::default);
+                for r in 0..per_thread * 10 {
+                    let mut site = pool[r % pool.len()].clone();
+                    site.name = format!("{}-round{r}", site.name);
+                    barrier.wait();
+                    let res = announce_with(&mut recv, &host, &dispatch, 700 + (r % 3) as u64, r as u64 + 1, &site);
+                    seen.lock().unwrap().entry(site.tok()).or_default().push(res);
+                }
+                dispatcher::with_default(&dispatch, || drop(recv));
             });
         }
     });
